@@ -181,6 +181,45 @@ fn runs_with_two_colours(log: &CLog) -> bool {
     log.calls.windows(2).any(|w| (w[0].fg, w[0].bg) != (w[1].fg, w[1].bg))
 }
 
+/// One `write` / `write_vectored` call on a buffer with several runs against a console that fails
+/// on its j-th call. Only the two clauses that do not depend on the state of the stream after a
+/// failure (open findings F14 / F14b) are judged: the error reaches the caller, and the buffer is
+/// not reported as consumed although text of it was never handed over. Returns Ok(non-trivial).
+fn check_write_error(input: &[u8], ok_calls: usize, kind: CResp, vectored: bool) -> Result<bool, String> {
+    let mut script = vec![CResp::All; ok_calls];
+    script.push(kind);
+    let log = Rc::new(RefCell::new(CLog::default()));
+    let console = Console { script: script.into_iter().collect(), log: log.clone() };
+    let mut s = WinconStream::new(console);
+    let res = if vectored {
+        let k = input.len() / 2;
+        s.write_vectored(&[IoSlice::new(&[]), IoSlice::new(&input[..k]), IoSlice::new(&input[k..])])
+    } else {
+        s.write(input)
+    };
+    let offered = if vectored { input.len() / 2 } else { input.len() };
+    let log = log.borrow();
+    let failed: Vec<ErrorKind> = log.faults.iter().filter_map(|f| f.err()).collect();
+    let Some(kind) = failed.first().copied() else {
+        return Ok(false); // the buffer had too few runs for the script to reach its failure
+    };
+    match res {
+        Err(e) if e.kind() == kind => {}
+        // (a stream may also stop in front of the run that failed and report a shorter count)
+        Ok(n) if n < offered.max(1) && offered > 0 => {}
+        other => {
+            return Err(format!(
+                "input {} ({}): console call #{} failed with {kind:?} but the call returned {:?} for a buffer of {offered} bytes - the error does not reach the caller and text that was never handed over is reported as consumed",
+                esc(input),
+                if vectored { "write_vectored" } else { "write" },
+                ok_calls + 1,
+                other.as_ref().map_err(|e| e.kind())
+            ))
+        }
+    }
+    Ok(ok_calls >= 1)
+}
+
 fn check(case: &Case) -> Result<bool, String> {
     let input = rt::unhex(&case.hex);
     let log = Rc::new(RefCell::new(CLog::default()));
@@ -468,6 +507,40 @@ fn run(args: &Args, rep: &mut Report) {
     }
     rep.add("exhaustive-pairs", true, "24 x 24 pairs of representative attribute groups (separate and combined) x 3 drivers", vec![acc]);
 
+    // write() against a console that fails on a later run of the same call
+    {
+        let mut acc = Acc::new();
+        let texts: Vec<Vec<u8>> = vec![
+            b"\x1b[31mred\x1b[32mgreen\x1b[0m".to_vec(),
+            b"a\x1b[1;34mb\x1b[44mc\x1b[0md\n".to_vec(),
+            "x\x1b[91m\u{e9}\x1b[38;5;3my\x1b[48;5;12mz".as_bytes().to_vec(),
+            b"plain\x1b[4mstill default colours\x1b[35mmagenta".to_vec(),
+            b"\x1b[32mone run only".to_vec(),
+        ];
+        'we: for t in &texts {
+            for ok_calls in 0..4usize {
+                for kind in [CResp::Interrupted, CResp::WouldBlock, CResp::Other] {
+                    for vectored in [false, true] {
+                        acc.eval();
+                        match rt::guarded(|| check_write_error(t, ok_calls, kind, vectored)) {
+                            Ok(nt) => {
+                                if nt {
+                                    acc.nontrivial_distinct();
+                                    acc.sample(|| json!({"text": esc(t), "console_calls_before_the_failure": ok_calls, "kind": format!("{kind:?}")}));
+                                }
+                            }
+                            Err(m) => {
+                                acc.fail("write-errors-surface", json!({"hex": rt::hex(t), "ok_calls": ok_calls, "kind": kind, "vectored": vectored}), m);
+                                break 'we;
+                            }
+                        }
+                    }
+                }
+            }
+        }
+        rep.add("write-errors-surface", true, "5 multi-run buffers x console failing on its 1st..4th call with Interrupted / WouldBlock / Other x {write, write_vectored}: one call each; judged: the error reaches the caller, nothing is reported consumed that was not handed over (the stream's state after the failure - open findings F14 / F14b - is not)", vec![acc]);
+    }
+
     // colour values above 255 name no colour: the run keeps its colours (value ignored) or falls
     // back to the default (value saturated, not a palette index 0-15) - never a palette colour
     // that the stream did not ask for
@@ -501,8 +574,12 @@ fn run(args: &Args, rep: &mut Report) {
     rep.add("out-of-range-colour-values", true, "38/48 extended colours with an index or component in 256..=65535 (6 spellings x 13 values x 4 contexts x 3 drivers); accepted: colours unchanged, or the saturated value (default)", vec![acc]);
 }
 
-fn replay(sub: &str, case: &Value) -> Result<(), String> {
-    let case: Case = serde_json::from_value(case.clone()).map_err(|e| format!("bad case: {e}"))?;
+fn replay(sub: &str, case_json: &Value) -> Result<(), String> {
+    if sub == "write-errors-surface" {
+        let kind: CResp = serde_json::from_value(case_json["kind"].clone()).map_err(|e| format!("bad case: {e}"))?;
+        return check_write_error(&rt::unhex(case_json["hex"].as_str().unwrap_or("")), case_json["ok_calls"].as_u64().unwrap_or(0) as usize, kind, case_json["vectored"].as_bool().unwrap_or(false)).map(|_| ());
+    }
+    let case: Case = serde_json::from_value(case_json.clone()).map_err(|e| format!("bad case: {e}"))?;
     if sub == "out-of-range-colour-values" {
         return sgr::with_out_of_range(sgr::OutOfRange::Ignore, || check(&case))
             .or_else(|m| sgr::with_out_of_range(sgr::OutOfRange::Saturate, || check(&case)).map_err(|_| m))
